@@ -165,3 +165,12 @@ fn lang_from_tag_es_zh_ja() {
     { let l = Language::from_tag("zh-QQ"); assert!(l.code() & 0x3ff == 4); let t = l.tag(); assert!(is_bytes(t, b"zh")); }
     { let l = Language::from_tag("ja-JP"); assert!(l.code() == 1041); }
 }
+
+// @harness name=lang_from_tag_prefix kind=Bk tier=quick props=C17 bound="the tags listed in the harness" desc="from_tag: a three-letter language whose first two letters are another language's tag is not confused with it ('arn' -> 0x7a, not 'ar'); an unknown language that merely starts with a known tag ('enx') maps to the neutral language 0"
+#[kani::proof]
+#[kani::unwind(125)]
+#[kani::stub(alloc::fmt::format, stub_format)]
+fn lang_from_tag_prefix() {
+    { let l = Language::from_tag("arn"); assert!(l.code() == 0x7a); }
+    { let l = Language::from_tag("enx"); assert!(l.code() == 0); }
+}
